@@ -31,6 +31,11 @@ Prim(n, args) ==
     [] n = "add" -> IF Len(args) = 2 /\ IsInt(args[1]) /\ IsInt(args[2]) THEN POk(IntV(args[1].i + args[2].i)) ELSE PErr
     [] n = "lt" -> IF Len(args) = 2 /\ IsInt(args[1]) /\ IsInt(args[2]) THEN POk(BoolV(args[1].i < args[2].i)) ELSE PErr
     [] n = "eq" -> IF Len(args) = 2 THEN POk(BoolV(args[1] = args[2])) ELSE PErr
+    [] n = "truep" -> IF Len(args) = 1 THEN POk(BoolV(args[1] = BoolV(TRUE))) ELSE PErr
+    [] n = "falsep" -> IF Len(args) = 1 THEN POk(BoolV(args[1] = BoolV(FALSE))) ELSE PErr
+    [] n = "anyp" -> IF Len(args) = 1 THEN POk(BoolV(TRUE)) ELSE PErr
+    [] n = "peek" -> IF Len(args) = 1 /\ args[1].ty = "vec"
+                     THEN POk(IF args[1].xs = <<>> THEN NilV ELSE args[1].xs[Len(args[1].xs)]) ELSE PErr
     [] n = "conj" -> IF Len(args) = 2 /\ args[1].ty = "vec" THEN POk(VecV(Append(args[1].xs, args[2]))) ELSE PErr
 
 (* projection of a result to what can be observed from outside *)
